@@ -395,6 +395,8 @@ func coqView(cs datatransfer.ChannelState, res *suiteResult) (out string) {
 		}
 		if cs.BothPaused() != (cs.InitiatorPaused() && cs.ResponderPaused()) {
 			res.fail(monitorFailure{Property: "C11", Signature: "view:both-paused", What: "BothPaused is not the conjunction"})
+			res.fail(monitorFailure{Property: "C19", Signature: "view:both-paused", What: "the views of one channel state contradict each other: BothPaused is not the conjunction"})
+			res.fail(monitorFailure{Property: "C17", Signature: "view:both-paused", What: "an announced snapshot is not a consistent view of the state resulting from the event: BothPaused is not the conjunction"})
 		}
 		selfP := cs.ResponderPaused()
 		if cs.SelfPeer() == chid.Initiator {
@@ -402,9 +404,13 @@ func coqView(cs datatransfer.ChannelState, res *suiteResult) (out string) {
 		}
 		if cs.SelfPaused() != selfP {
 			res.fail(monitorFailure{Property: "C11", Signature: "view:self-paused", What: "SelfPaused is not the flag of the local role"})
+			res.fail(monitorFailure{Property: "C19", Signature: "view:self-paused", What: "the views of one channel state contradict each other: SelfPaused is not the flag of the local role"})
+			res.fail(monitorFailure{Property: "C17", Signature: "view:self-paused", What: "an announced snapshot is not a consistent view of the state resulting from the event: SelfPaused is not the flag of the local role"})
 		}
 		if cs.Status() == datatransfer.Finalizing && !cs.ResponderPaused() {
 			res.fail(monitorFailure{Property: "C11", Signature: "view:finalizing-not-paused", What: "a responder awaiting finalization does not count as paused"})
+			res.fail(monitorFailure{Property: "C19", Signature: "view:finalizing-not-paused", What: "the views of one channel state contradict each other: a responder awaiting finalization does not count as paused"})
+			res.fail(monitorFailure{Property: "C17", Signature: "view:finalizing-not-paused", What: "an announced snapshot is not a consistent view of the state resulting from the event: a responder awaiting finalization does not count as paused"})
 		}
 		vs0 := cs.Vouchers()
 		if len(vs0) > 0 && !cs.Voucher().Equals(vs0[0]) {
